@@ -37,6 +37,7 @@ TABLE = {
 
 def run(chk):
     repo = chk.repo
+    cm.schema(chk, repo, "C11")
     d1_composition(chk, repo)
     d2_kmesh(chk, repo, "mesh.Mesh.fftn", "self.n[i]", True)
     d2_kmesh(chk, repo, "mesh.Mesh.ifftn", "S[i]", False)
